@@ -4,6 +4,7 @@
 cd /verif
 git -C /repo diff --quiet || { echo "/repo has uncommitted changes"; exit 2; }
 rc=0
+bak=$(mktemp -d); cp -r evidence/. $bak/   # seeded runs rewrite the evidence files: restore the clean-tree evidence afterwards
 for d in seeded/*/; do
   id=$(basename $d); prop=${id%%-*}
   [ -n "$1" ] && [ "$1" != "$prop" ] && [ "$1" != "$id" ] && continue
@@ -18,4 +19,5 @@ for d in seeded/*/; do
   git -C /repo checkout -- .
   if [ -n "$hit" ]; then echo "$id: DETECTED by$hit"; else echo "$id: MISSED"; rc=1; fi
 done
+cp -r $bak/. evidence/; rm -rf $bak
 exit $rc
